@@ -702,7 +702,21 @@ pub fn drive_c10(t: &Tier, sink: &mut Sink, stats: &mut Stats) {
             values.push(v);
         }
     }
+    // values with all-zero storage words below a non-zero one (word-skipping feeds), of every word size
+    for w in [8usize, 16, 32, 64, 128] {
+        for extra in [1usize, 5, w.min(40)] {
+            let mut v = zeros(w + extra);
+            v[w] = 1;
+            v[w + extra - 1] = 1;
+            values.push(v);
+            let mut v2 = zeros(2 * w + extra);
+            v2[2 * w + extra - 1] = 1;
+            values.push(v2);
+        }
+    }
     values.push(vec![]);
+    values.sort();
+    values.dedup();
     for kind in ALL_KINDS {
         let cap = kind.fixed_cap().unwrap_or(320);
         let mut evs = Vec::new();
